@@ -162,11 +162,19 @@ Definition parse_case (inp : list tok) : option case01 :=
   | _ => None
   end.
 
+(* the observation starts with a summary token (class of the first answer, 3f if none) that
+   only serves the evidence histogram; the checker does not look at it *)
+Definition first_class (l : list sobs) : N := match l with o :: _ => o_class o | [] => 63 end.
 Definition suite_body (inp obs : list tok) : verdict :=
-  match parse_case inp, parse_obs obs with
-  | Some c, Some ob =>
-      {| v_model := map enc_obs (run_C01 c); v_ok := ok_C01 c ob; v_wellformed := true |}
-  | _, _ => malformed
+  match obs with
+  | TN _ :: obs' =>
+      match parse_case inp, parse_obs obs' with
+      | Some c, Some ob =>
+          {| v_model := TN (first_class (run_C01 c)) :: map enc_obs (run_C01 c);
+             v_ok := ok_C01 c ob; v_wellformed := true |}
+      | _, _ => malformed
+      end
+  | _ => malformed
   end.
 
 Definition suite_C01 (inp obs : list tok) : verdict := suite_body inp obs.
@@ -176,11 +184,12 @@ Definition suite_C01reg (inp obs : list tok) : verdict := suite_body inp obs.
 (* ------------------------------------------------------------------ well-formed cases
    what the theorems assume of a case (the parser enforces all of it except that it also admits
    a fake parent ending exactly at 2^64, which the generator uses for offset / split_at only):
-   a slice root is an address range ending below 2^64; a mapped root has at least one region,
+   a slice root is an address range ending below 2^64, no longer than isize::MAX (longer fake
+   parents are exercised by the correspondence only); a mapped root has at least one region,
    each smaller than REG_STRIDE, at most 2^20 of them *)
 Definition wf_regions (l : list (N * N)) : Prop :=
   Forall (fun r => snd r < REG_STRIDE) l /\ N.of_nat (length l) <= 1048576.
 Definition wf_case (c : case01) : Prop :=
   c_rootk c <= RK_GMEM /\
-  (if is_slice_root (c_rootk c) then c_base c + c_len c < W64
+  (if is_slice_root (c_rootk c) then c_base c + c_len c < W64 /\ c_len c <= ISZ_MAX
    else c_regions c <> [] /\ wf_regions (c_regions c)).
